@@ -145,6 +145,9 @@ func (p *simpleExpressionPlanner) planEval() (shared.SQLRequestPlanner, error) {
 }
 
 func (p *simpleExpressionPlanner) check() error {
+	if agg := p.script.Head.Aggregator; agg != nil && agg.Fn != "count" && agg.Attr == "" {
+		return fmt.Errorf("`| %s()` needs the attribute to aggregate", agg.Fn)
+	}
 	if p.script.Head.AttrSelector == nil {
 		if p.script.Head.Aggregator != nil {
 			return fmt.Errorf("requests like `{} | ....` are not supported")
